@@ -4,6 +4,8 @@ import (
 	"fmt"
 	"strconv"
 	"strings"
+	"sync"
+	"sync/atomic"
 	"time"
 
 	"github.com/Nextdoor/pg-bifrost.git/parselogical"
@@ -11,6 +13,7 @@ import (
 	"github.com/Nextdoor/pg-bifrost.git/replication"
 	"github.com/Nextdoor/pg-bifrost.git/shutdown"
 	"github.com/Nextdoor/pg-bifrost.git/stats"
+	"github.com/Nextdoor/pg-bifrost.git/utils"
 )
 
 // partitioner: the real Partitioner stage goroutine; every message is forwarded with its key.
@@ -64,6 +67,30 @@ func partitionerRun(c Case) ([]string, []string) {
 				outs = append(outs, "hang")
 				return lines, outs
 			}
+		case len(w) == 3 && w[1] == "storm":
+			// several partitioner goroutines hash at the same time in a real process (one per source is not the rule:
+			// the batcher's routing hashes too): utils.QuickHash from 8 goroutines at once, each on its own keys
+			b, _ := strconv.Atoi(w[2])
+			if b < 1 {
+				outs = append(outs, "bad-op")
+				continue
+			}
+			var wg sync.WaitGroup
+			var bad int64
+			for g := 0; g < 8; g++ {
+				wg.Add(1)
+				go func(g int) {
+					defer wg.Done()
+					for i := 0; i < 30000; i++ {
+						k := fmt.Sprintf("%d-transaction-key-with-some-length-%d-%d", g, i, g*7919+i)
+						if utils.QuickHash(k, b) != quickHashGo(k, b) {
+							atomic.AddInt64(&bad, 1)
+						}
+					}
+				}(g)
+			}
+			wg.Wait()
+			outs = append(outs, fmt.Sprintf("mismatches=%d", bad))
 		default:
 			outs = append(outs, "bad-op")
 		}
@@ -72,6 +99,9 @@ func partitionerRun(c Case) ([]string, []string) {
 }
 
 func partitionerGen(r *Rng, tier string) Case {
+	if r.Chance(3) {
+		return Case{[]string{fmt.Sprintf("partitioner storm %d", r.Range(2, 64))}}
+	}
 	method := Pick(r, []string{"none", "tablename", "transaction", "transaction-bucket", "transaction-bucket"})
 	buckets := r.Range(1, 64)
 	lines := []string{fmt.Sprintf("partitioner cfg %s %d", method, buckets)}
@@ -151,6 +181,9 @@ func partitionerMonitor(lines, outs []string, m *Model) []Violation {
 			break
 		}
 		want, _ := m.Do(l)
+		if strings.HasPrefix(l, "partitioner storm") && want != outs[i] {
+			return []Violation{{"C06", "utils.QuickHash called from several goroutines at once does not return the bucket of its argument: " + outs[i] + " of 240000 calls differ (" + l + ")", ""}}
+		}
 		if strings.HasPrefix(l, "partitioner msg") && want != outs[i] {
 			return []Violation{{"C06", "partition key " + outs[i] + " differs from the method's key " + want + " (" + lines[0] + " | " + l + ")", ""}}
 		}
